@@ -67,19 +67,22 @@ func c09ClipText(b []byte) []byte {
 }
 
 // freshObs inspects one file in a fresh process (verifharness inspect1) and returns the
-// description (the input's "format" for the coverage of ordered pairs) and the observation.
-func freshObs(path string) (string, string) {
+// description (the input's "format" for the coverage of ordered pairs), the number of rows
+// of the format table that claim the input, and the observation.  The process that runs the
+// histories calls no code of the repository before the first position of the first history.
+func freshObs(path string) (label string, rows int, obs string) {
 	self, _ := os.Executable()
 	out, err := exec.Command(self, "inspect1", path).Output()
 	if err != nil {
-		return "(crashed)", "(2)"
+		return "(crashed)", 0, "(2)"
 	}
-	parts := strings.SplitN(strings.TrimRight(string(out), "\r\n"), "\t", 2)
-	if len(parts) != 2 {
-		return "(crashed)", "(2)"
+	parts := strings.SplitN(strings.TrimRight(string(out), "\r\n"), "\t", 3)
+	if len(parts) != 3 {
+		return "(crashed)", 0, "(2)"
 	}
 	d, _ := hex.DecodeString(parts[0])
-	return string(d), parts[1]
+	fmt.Sscan(parts[1], &rows)
+	return string(d), rows, parts[2]
 }
 
 // helpers driven through one reused buffer: name -> observation of one call
@@ -119,7 +122,7 @@ var c09Helpers = map[string]func(b []byte) Sx{
 	"IsUUID": func(b []byte) Sx { return guard(func() Sx { return ObsOk(Bool(file.IsUUID("", b, int64(len(b))))) }) },
 }
 
-// inspect1Main: `inspect1 <path>` prints hex(description) TAB observation;
+// inspect1Main: `inspect1 <path>` prints hex(description) TAB claiming-rows TAB observation;
 // `inspect1 --helper <name> <hex>` prints the observation of one helper call.
 func inspect1Main() {
 	if len(os.Args) >= 5 && os.Args[2] == "--helper" {
@@ -128,7 +131,17 @@ func inspect1Main() {
 		return
 	}
 	o, d := c09Obs(os.Args[2])
-	fmt.Println(hex.EncodeToString([]byte(d)) + "\t" + o.String())
+	rows := 0
+	func() {
+		defer func() { recover() }()
+		data, _ := os.ReadFile(os.Args[2])
+		for _, pr := range file.VerifRowPredicates(os.Args[2], data, int64(len(data))) {
+			if pr[0] || pr[1] || pr[2] {
+				rows++
+			}
+		}
+	}()
+	fmt.Printf("%s\t%d\t%s\n", hex.EncodeToString([]byte(d)), rows, o.String())
 }
 
 type c09_rawSx string
@@ -179,6 +192,14 @@ type c09Gen struct {
 	dir  string
 	pool []c09Item
 	cli  map[string][]byte // output of a separate run of the CLI on that file alone
+	// digests: emit 12 octets of SHA-256 instead of each observation (the n^2 positions of "every
+	// pool element after every other" in the thorough tier)
+	digests bool
+}
+
+func c09Digest(s string) Sx {
+	h := sha256.Sum256([]byte(s))
+	return SL{SB(h[:12])}
 }
 
 func (g *c09Gen) add(tag, name string, data []byte) int {
@@ -186,16 +207,7 @@ func (g *c09Gen) add(tag, name string, data []byte) int {
 	os.MkdirAll(d, 0o755)
 	p := filepath.Join(d, name)
 	os.WriteFile(p, data, 0o644)
-	rows := 0
-	func() {
-		defer func() { recover() }()
-		for _, pr := range file.VerifRowPredicates(p, data, int64(len(data))) {
-			if pr[0] || pr[1] || pr[2] {
-				rows++
-			}
-		}
-	}()
-	g.pool = append(g.pool, c09Item{tag: tag, name: name, path: p, rows: rows})
+	g.pool = append(g.pool, c09Item{tag: tag, name: name, path: p})
 	return len(g.pool) - 1
 }
 
@@ -224,7 +236,7 @@ func (g *c09Gen) baselines() {
 		sem <- struct{}{}
 		go func(i int) {
 			defer wg.Done()
-			g.pool[i].label, g.pool[i].fresh = freshObs(g.pool[i].path)
+			g.pool[i].label, g.pool[i].rows, g.pool[i].fresh = freshObs(g.pool[i].path)
 			<-sem
 		}(i)
 	}
@@ -244,6 +256,11 @@ func (g *c09Gen) history(kind string, seq []int) {
 		for _, i := range seq[s:e] {
 			it := g.pool[i]
 			o, _ := c09Obs(it.path)
+			if g.digests {
+				input = append(input, SL{S(it.tag), c09Digest(it.fresh)})
+				obs = append(obs, c09Digest(o.String()))
+				continue
+			}
 			input = append(input, SL{S(it.tag), c09_rawSx(it.fresh)})
 			obs = append(obs, o)
 		}
@@ -293,6 +310,11 @@ func (g *c09Gen) emitCLI(kind string, tags []string, want, got [][]byte, code in
 		}
 		input, obs := SL{}, SL{}
 		for i := s; i < e; i++ {
+			if g.digests {
+				input = append(input, SL{S(tags[i]), c09Digest(string(want[i]))})
+				obs = append(obs, c09Digest(string(got[i])))
+				continue
+			}
 			input = append(input, SL{S(tags[i]), SL{SB(c09ClipText(want[i]))}})
 			obs = append(obs, SL{SB(c09ClipText(got[i]))})
 		}
@@ -436,7 +458,7 @@ func genC09(c *Ctx) {
 	per := 1
 	nkeys := 2
 	if c.Thorough() {
-		per, nkeys = 6, 6
+		per, nkeys = 3, 4
 	}
 	for v := 0; v < nkeys; v++ {
 		fam(c09PGPFamily(c, v, per))
@@ -456,7 +478,7 @@ func genC09(c *Ctx) {
 	base := len(g.pool)
 	nm := 30
 	if c.Thorough() {
-		nm = 300
+		nm = 150
 	}
 	for k := 0; k < nm; k++ {
 		src := g.pool[c.R.Intn(base)]
@@ -582,8 +604,10 @@ func genC09(c *Ctx) {
 			pairs = append(pairs, i)
 		}
 	}
+	g.digests = c.Thorough()
 	g.history("history:ordered-pairs", pairs)
 	g.cliArgs("cli-args:ordered-pairs", pairs)
+	g.digests = false
 
 	lap(fmt.Sprintf("ordered pairs: %d positions", len(pairs)))
 	// ---------- (4) long runs of one input ----------
